@@ -109,13 +109,13 @@ CCommit(r, u, dd) ==
      ELSE IF sw.s.dead THEN
         /\ ups' = [ups EXCEPT ![r][u] = sw.s] /\ res' = ErrR("FAIL") /\ UNCHANGED <<blobs, cwvars>>
      ELSE IF dd \in Cids /\ sw.s.buf = Cat[dd].bytes THEN
-        /\ ups' = [ups EXCEPT ![r][u] = sw.s]
+        /\ ups' = [ups EXCEPT ![r][u] = [sw.s EXCEPT !.done = TRUE]]
         /\ blobs' = [blobs EXCEPT ![r] = @ \cup {dd}]
         /\ cw' = [cw EXCEPT ![K(r, u)] = [@ EXCEPT !.flushed = @ + SizeOf(w.chunk), !.chunk = <<>>]]
         /\ res' = OkDescN(dd, w.size)     \* the size reported is the client's count
         /\ UNCHANGED sent
      ELSE
-        /\ ups' = [ups EXCEPT ![r][u] = [sw.s EXCEPT !.dead = TRUE]]
+        /\ ups' = [ups EXCEPT ![r][u] = [sw.s EXCEPT !.dead = ~sw.s.done]]
         /\ res' = ErrR("DIGEST_INVALID") /\ UNCHANGED <<blobs, cwvars>>
   /\ UNCHANGED <<imm, mans, tags, touched>>
 
